@@ -83,3 +83,81 @@
         crate::vcover!(all_ok);
         core::mem::forget(r);
     }
+
+    // ---------------------------------------------------------------- member loop
+    fn lz_new_stub(_dict_size: usize, _preset: Option<&[u8]>) -> crate::lz::LZDecoder { crate::lz::LZDecoder::default() }
+    fn dec_new_stub(_lc: u32, _lp: u32, _pb: u32) -> crate::decoder::LZMADecoder {
+        unsafe { core::mem::MaybeUninit::<crate::decoder::LZMADecoder>::zeroed().assume_init() }
+    }
+    fn fresh_reader(data: [u8; 12], len: usize, first: bool) -> LZIPReader<vk::Src<12>> {
+        let mut r = LZIPReader::new(vk::Src::<12>::new(data, len)).unwrap();
+        if !first { r.current_header = Some(LZIPHeader { version: 1, dict_size: 4096 }); }
+        r
+    }
+
+    /// C12.lzip.loop / C04.lzip.header: start_next_member on a well-formed member start (header + range-coder preamble):
+    /// Ok(true), the decoder is set up with the header's dictionary and LZMA-302eos parameters, per-member CRC and
+    /// size counters restart, exactly 6 + 5 bytes are consumed.
+    #[kani::proof]
+    #[kani::unwind(8)]
+    //@ERR
+    #[kani::stub(crate::lz::LZDecoder::new, lz_new_stub)]
+    #[kani::stub(crate::decoder::LZMADecoder::new, dec_new_stub)]
+    fn c12_lzip_start_member_valid() {
+        let dict_byte: u8 = vk::any();
+        vk::assume(decode_dict_byte_ok(dict_byte));
+        let rest: [u8; 4] = vk::any();
+        let data = [b'L', b'Z', b'I', b'P', 1, dict_byte, 0, rest[0], rest[1], rest[2], rest[3], 0x77];
+        let first: bool = vk::any();
+        let mut r = fresh_reader(data, 12, first);
+        r.data_size = 99;
+        let res = r.start_next_member();
+        assert!(matches!(res, Ok(true)));
+        assert!(r.lzma_reader.is_some() && r.inner.is_none());
+        assert!(r.data_size == 0 && r.crc_digest.is_some() && r.trailer_buf.is_empty());
+        assert!(r.current_header.as_ref().unwrap().version == 1);
+        core::mem::forget(r);
+    }
+    fn decode_dict_byte_ok(b: u8) -> bool {
+        let lg = (b & 0x1F) as u32; let fr = (b >> 5) as u32;
+        lg >= 12 && lg <= 29 && ((1u32 << lg) - ((1u32 << lg) / 16) * fr) >= 4096
+    }
+
+    /// C12.lzip.loop / C04 (tolerated loss defined by the format): after at least one complete member, end of input or
+    /// bytes that do not start with the member magic end the file cleanly: Ok(false), source handed back.
+    #[kani::proof]
+    #[kani::unwind(8)]
+    //@ERR
+    #[kani::stub(crate::lz::LZDecoder::new, lz_new_stub)]
+    #[kani::stub(crate::decoder::LZMADecoder::new, dec_new_stub)]
+    fn c12_lzip_trailing_garbage_after_member() {
+        let data: [u8; 12] = vk::any();
+        let len: usize = vk::any();
+        vk::assume(len <= 12);
+        vk::assume(len < 4 || !(data[0] == b'L' && data[1] == b'Z' && data[2] == b'I' && data[3] == b'P'));
+        let mut r = fresh_reader(data, len, false);
+        let res = r.start_next_member();
+        assert!(matches!(res, Ok(false)));
+        assert!(r.inner.is_some() && r.lzma_reader.is_none());
+        core::mem::forget(r);
+    }
+
+    /// KNOWN FINDING D16 (C04): a member header that is recognisable (magic present) but damaged - wrong version or an
+    /// invalid dictionary byte - and, for the first member, any non-empty input without the magic, must be an error;
+    /// start_next_member maps every header error to "no more members", so a damaged file decodes as empty / truncated.
+    #[kani::proof]
+    #[kani::unwind(8)]
+    //@ERR
+    #[kani::stub(crate::lz::LZDecoder::new, lz_new_stub)]
+    #[kani::stub(crate::decoder::LZMADecoder::new, dec_new_stub)]
+    fn kf_c04_lzip_damaged_header_is_eof() {
+        let data: [u8; 12] = vk::any();
+        let first: bool = vk::any();
+        let magic = data[0] == b'L' && data[1] == b'Z' && data[2] == b'I' && data[3] == b'P';
+        let damaged = magic && (data[4] != 1 || !decode_dict_byte_ok(data[5]));
+        vk::assume(damaged || (first && !magic));
+        let mut r = fresh_reader(data, 12, first);
+        let res = r.start_next_member();
+        assert!(res.is_err(), "damaged or foreign member header reported as clean end of input");
+        core::mem::forget(r);
+    }
